@@ -253,6 +253,32 @@ def odd_index_rule(g, rg, doc):
     return RuleT(rpath, cond, [])
 
 
+def root_arg_rule(g, rg, doc):
+    """The argument is the ROOT path (no parts: the whole document, a falsy object since len(DataPath()) == 0) with a datum modifier;
+    a node equal to what it resolves to is planted so that the verdict depends on the resolution."""
+    from ..pathterms import MapT
+    if isinstance(doc, dict):
+        k = g.r.random()
+        if k < 0.5:
+            doc["_n"] = len(doc) + 1
+            arg, m = PathT([], ["length"]), g.r.choice(["not_equal_to", "equal_to", "less_than"])
+        elif k < 0.8:
+            doc["_k"] = g.r.choice([x for x in doc if isinstance(x, (str, int))] or ["_k"])
+            arg, m = PathT([], ["map_keys"]), g.r.choice(["in_", "not_in"])
+        else:
+            arg, m = PathT([], ["dtype"]), "equal_to"
+        rpath = PathT([MapT()])
+    else:
+        doc.append(len(doc) + 1)
+        arg, m = PathT([], ["length"]), g.r.choice(["not_equal_to", "equal_to", "greater_than_or_equal_to"])
+        rpath = PathT([ListT()])
+    cls = "ValueDataType" if arg.mods == ["dtype"] else "Value"
+    cond = Leaf(cls, m, [arg]) if g.r.random() < 0.7 else Leaf(cls, m, [], {"value": arg})
+    if g.r.random() < 0.3:
+        cond = Bin(g.r.choice(["and", "or"]), cond, rg.rule(doc, cast_p=0.0).cond)
+    return RuleT(rpath, cond, [])
+
+
 def run(tier, seed, model_ok, spec_ok, replay=None):
     g = Gen(seed)
     rg = RuleGen(CondGen(g))
@@ -271,6 +297,8 @@ def run(tier, seed, model_ok, spec_ok, replay=None):
             rt = container_arg_rule(g, rg, doc) or rt
         elif g.r.random() < 0.08:
             rt = odd_index_rule(g, rg, doc) or rt
+        elif g.r.random() < 0.08:
+            rt = root_arg_rule(g, rg, doc) or rt
         try:
             c = c05.make_case(rt, doc)
         except E.Unencodable:
